@@ -328,38 +328,39 @@ func ruleClearDeadline(c *Ctx) {
 	}
 	h := a.handler
 	rfs := relayFns(c)
-	n := 0
-	for _, cl := range eng.Calls(h) {
-		call, ok := cl.(*ssa.Call)
+	reg := c.NewRegion(h, 4, func(g *ssa.Function) bool { return eng.PkgPathOf(g) != eng.Mod+"/service" })
+	isRelay := func(ins ssa.Instruction) bool {
+		call, ok := ins.(*ssa.Call)
 		if !ok {
-			continue
+			return false
 		}
-		isRelay := false
 		for _, f := range repoCallees(c, call) {
 			for _, rf := range rfs {
 				if f == rf {
-					isRelay = true
+					return true
 				}
 			}
 		}
-		if !isRelay {
-			continue
-		}
-		n++
-		cleared := false
-		for _, c2 := range eng.Calls(h) {
-			dc, ok := c2.(*ssa.Call)
-			if !ok || eng.MethodName(&dc.Call) != "SetReadDeadline" {
-				continue
-			}
-			arg := eng.Arg(&dc.Call, 0)
-			if (eng.IsZeroValue(p.Resolve(arg)) || isZeroStructLoad(p, arg)) && eng.Dominates(dc, call) && a.sameConn(c, eng.Receiver(&dc.Call)) {
-				cleared = true
-			}
-		}
-		c.CheckAt("DEADLINE", short(h)+":deadline-cleared-before-relay", call, cleared, "the relay can start with the handshake read deadline still set on the client connection: long-lived connections are cut when it fires")
+		return false
 	}
-	c.Floor("DEADLINE", "relay calls in the handler", n, 1)
+	isClear := func(ins ssa.Instruction) bool {
+		dc, ok := ins.(*ssa.Call)
+		if !ok || eng.MethodName(&dc.Call) != "SetReadDeadline" {
+			return false
+		}
+		arg := eng.Arg(&dc.Call, 0)
+		return (eng.IsZeroValue(p.Resolve(arg)) || isZeroStructLoad(p, arg)) && a.sameConn(c, eng.Receiver(&dc.Call))
+	}
+	n := 0
+	for _, cl := range reg.Calls() {
+		if isRelay(cl) {
+			n++
+		}
+	}
+	if c.Floor("DEADLINE", "relay calls in the handler's region", n, 1) {
+		ok, bad := reg.BeforeDeep(isClear, isRelay)
+		c.Check("DEADLINE", short(h)+":deadline-cleared-before-relay", p.Pos(h.Pos()), ok, fmt.Sprintf("the relay can start (%s) with the handshake read deadline still set on the client connection: long-lived connections are cut when it fires", p.IPos(bad)))
+	}
 }
 
 // PASSTHRU (shared by C02 and C15): wrapper transparency of the measuring connection, over each method's helper region.
@@ -847,7 +848,7 @@ func ruleWiring(c *Ctx, a *tcpAnchors) {
 		if fa, ok := call.Call.Args[2].(*ssa.FieldAddr); ok {
 			b2 = baseRoot(fa.X)
 		}
-		c.CheckAt("WIRING", fmt.Sprintf("%s:%s-connection-counters-same-struct", short(s.Fn), who), call, b1 != nil && b1 == b2, "sent and received counters belong to different ProxyMetrics values")
+		c.CheckAt("WIRING", fmt.Sprintf("%s:%s-connection-counters-same-struct", short(s.Fn), who), call, b1 != nil && b2 != nil && (b1 == b2 || p.SameValue(b1, b2)), "sent and received counters belong to different ProxyMetrics values")
 	}
 	c.Floor("WIRING", "MeasureConn call sites in the service", n, 2)
 	// the measured client connection is what the handler works on, and the measured target connection is what the relay uses
